@@ -897,8 +897,9 @@ def extract_class(src_path, header_path, cls, skip=('init_var',), only=None, ext
     parsed = []
     # members that can change during the life of an object: registered parameters (set_var) and anything a member function assigns;
     # the rest is set by the constructor only (e.g. PI) -- used by rule SL
-    mutable = set(re.findall(r'register_var\s*\(\s*"\w+"\s*,\s*&\s*(?:this\s*->\s*)?(\w+)', src))
+    mutable = set()
     for ret, name, argtext, body in raw:
+        mutable |= set(re.findall(r'register_var\s*\(\s*"\w+"\s*,\s*&\s*(?:this\s*->\s*)?(\w+)', body))      # this class's own registrations (constructor)
         if name != cls and not name.startswith('~'):
             mutable |= set(re.findall(r'(?<![\w.>])(?:this\s*->\s*)?(\w+)\s*(?:=(?!=)|\+=|-=|\*=|/=|\+\+|--)', body)) & (set(decl.scalars) | set(decl.ints))
     for ret, name, argtext, body in raw:
